@@ -9,6 +9,22 @@ import os
 import subprocess
 import sys
 
+def run_check(cmd, cwd, env, timeout):
+    """run a check in its own process group; on timeout kill the whole group (pool workers included)"""
+    import signal
+    p = subprocess.Popen(cmd, cwd=cwd, env=env, stdout=subprocess.PIPE, stderr=subprocess.STDOUT, text=True, start_new_session=True)
+    try:
+        out, _ = p.communicate(timeout=timeout)
+    except subprocess.TimeoutExpired:
+        try:
+            os.killpg(p.pid, signal.SIGKILL)
+        except OSError:
+            pass
+        p.communicate()
+        raise
+    return subprocess.CompletedProcess(cmd, p.returncode, out, None)
+
+
 V = os.path.dirname(os.path.dirname(os.path.abspath(__file__)))
 ALL = ['C%02d' % i for i in range(1, 17)]
 names = sys.argv[1:] or sorted(os.path.basename(os.path.dirname(p)) for p in glob.glob(os.path.join(V, 'harmless', '*', 'patch.diff')))
@@ -25,7 +41,7 @@ for name in names:
         assert r.returncode == 0, 'patch does not apply'
         env = dict(os.environ, VERIF_REPO=wt)
         for prop in meta.get('checks', ALL):
-            p = subprocess.run(['./check', prop, '--tier', 'quick', '--no-build'], cwd=V, env=env, stdout=subprocess.PIPE, stderr=subprocess.STDOUT, text=True, timeout=3600)
+            p = run_check(['./check', prop, '--tier', 'quick', '--no-build'], V, env, 6000)
             lines = [l for l in p.stdout.split('\n') if l.startswith('VIOLATION')]
             out = p.stdout.split('\n')
             what = out[out.index(lines[0]) + 1].strip()[:300] if lines and out.index(lines[0]) + 1 < len(out) else ''
